@@ -11,6 +11,7 @@ import GocoinV.Proofs.C07Roll
 import GocoinV.Proofs.C07Torn
 import GocoinV.Proofs.C07Lib
 import GocoinV.Proofs.C07Idx
+import GocoinV.Model.PersistClient
 namespace GocoinV.Props.C07
 open GocoinV.Persist GocoinV.Proofs.C07
 
@@ -553,6 +554,18 @@ open GocoinV.Gen.C07Facts in
     statements in that order. (A tripwire for these two shapes only: the rest of do_the_blocks / host_init is trusted to be what
     child.go mirrors.) -/
 theorem client_facts_are_the_mirrored_ones : clientDoNotRescan = true ∧ clientAcceptOrder = true := by decide
+
+open GocoinV.Gen.C07Facts in
+/-- the client's start-up replay AS WRITTEN IN THE SOURCE (client/main.go do_the_blocks: where its walk to the farthest block on
+    disk starts is regenerated from the source on every run - `clientReplayStart`) is the recovery loop of the model, the one every
+    restart theorem of this file is about (`clientRecover`: from the first common ancestor of the snapshot's block and the farthest
+    block). The harness also runs the client's own functions on captured directories (go/cmd/c07/realclient.go). -/
+theorem client_replay_as_written_is_the_modelled_loop (s : St) : clientRecoverFrom clientReplayStart s = clientRecover s := rfl
+
+/-- … and the common ancestor is needed: on the directory a kill leaves after a reorganisation that followed a snapshot (snapshot
+    on A, the blocks of B1-B2 on disk, the next snapshot not complete) the walk that starts at the tip itself ends in FindPathTo's
+    panic "unknown path to block" with the node still on A, the walk from the first common ancestor reaches B2. -/
+theorem client_replay_needs_the_common_ancestor : replayStartShows = true := by decide +kernel
 
 open GocoinV.Persist.Idx GocoinV.Gen.C07Facts in
 /-- EVERY index record keeps what it was written with: for ANY directory `d` (any flag bytes, records flagged invalid anywhere)
